@@ -1143,6 +1143,7 @@ func stepsCmd(a Args) {
 	}
 	stStructOutputWitness(s)
 	stDecoratedStepWitness(s)
+	stRefusedThenSignalWitness(s)
 	for _, stream := range strings.Split(streams, ",") {
 		switch stream {
 		case "calls":
@@ -1358,6 +1359,91 @@ func stDecoratedStepWitness(s *sink) {
 			case r.want == "own" && !errors.Is(err, own):
 				bad("the step's own error is not passed on")
 			}
+		}
+	}
+}
+
+// stRefusedThenSignalWitness (oracle-only): a step call that is REFUSED (its input fails the input
+// schema's Validate in the typed entry point, or Unserialize in CallStep) leaves the run usable: a signal
+// for the same run ID afterwards is delivered and returns, a second step call with a valid input runs the
+// handler, and the same in the other order and from several goroutines. Every call returns what it returns
+// in isolation - in particular it returns.
+func stRefusedThenSignalWitness(s *sink) {
+	within := func(what string, f func() error) (error, bool) {
+		done := make(chan error, 1)
+		go func() {
+			var err error
+			if r := hx.Guard(func() hx.Result { err = f(); return hx.Result{R: "ok"} }); r.R != "ok" {
+				err = fmt.Errorf("panic: %s", r.Msg)
+			}
+			done <- err
+		}()
+		select {
+		case err := <-done:
+			return err, true
+		case <-time.After(3 * time.Second):
+			for _, prop := range []string{"C11", "C13"} {
+				s.finding(Finding{Prop: prop, What: "a call that returns at once in isolation does not return after a refused step call for the same run ID: " + what})
+			}
+			return nil, false
+		}
+	}
+	for _, order := range []string{"refused,signal,step", "refused,step,signal", "refused,refused,signal", "callstep-refused,signal,step"} {
+		var stepCalls, sigCalls int64
+		inScope := func() *schema.ScopeSchema {
+			return schema.NewScopeSchema(schema.NewObjectSchema("in", map[string]*schema.PropertySchema{
+				"name": schema.NewPropertySchema(schema.NewStringSchema(nil, sp(int64(8)), nil), nil, true, nil, nil, nil, nil, nil)}))
+		}
+		step := schema.NewCallableStepWithSignals[any, any]("s", inScope(),
+			map[string]*schema.StepOutputSchema{"success": schema.NewStepOutputSchema(inScope(), nil, false)},
+			map[string]schema.CallableSignal{"poke": schema.NewCallableSignal[any, any]("poke", inScope(), nil,
+				func(_ context.Context, _ any, _ any) { atomic.AddInt64(&sigCalls, 1) })},
+			nil, nil, func() any { return &stBox{} },
+			func(_ context.Context, _ any, in any) (string, any) {
+				atomic.AddInt64(&stepCalls, 1)
+				return "success", map[string]any{"name": "done"}
+			})
+		cs := schema.NewCallableSchema(step)
+		ctx := context.Background()
+		ok := true
+		wantStep, wantSig := int64(0), int64(0)
+		for i, op := range strings.Split(order, ",") {
+			if !ok {
+				break
+			}
+			what := fmt.Sprintf("order %s, call %d (%s)", order, i+1, op)
+			var err error
+			switch op {
+			case "refused":
+				err, ok = within(what, func() error { _, _, e := step.Call(ctx, "run-1", map[string]any{}); return e })
+				if ok && stErrType(err) != "InvalidInputError" {
+					s.finding(Finding{Prop: "C11", What: "the typed Call given an input that fails the input schema: expected InvalidInputError", Detail: []string{what, fmt.Sprint(err)}})
+				}
+			case "callstep-refused":
+				err, ok = within(what, func() error {
+					_, _, e := cs.CallStep(ctx, "run-1", "s", map[string]any{"name": "much too long a name"})
+					return e
+				})
+				if ok && stErrType(err) != "InvalidInputError" {
+					s.finding(Finding{Prop: "C11", What: "CallStep with a rejected input: expected InvalidInputError", Detail: []string{what, fmt.Sprint(err)}})
+				}
+			case "signal":
+				wantSig++
+				err, ok = within(what, func() error { return cs.CallSignal(ctx, "run-1", "s", "poke", map[string]any{"name": "x"}) })
+				if ok && err != nil {
+					s.finding(Finding{Prop: "C11", What: "a valid signal after a refused step call for the same run ID is not delivered", Detail: []string{what, err.Error()}})
+				}
+			case "step":
+				wantStep++
+				err, ok = within(what, func() error { _, _, e := cs.CallStep(ctx, "run-1", "s", map[string]any{"name": "ann"}); return e })
+				if ok && err != nil {
+					s.finding(Finding{Prop: "C11", What: "a valid step call after a refused one for the same run ID fails", Detail: []string{what, err.Error()}})
+				}
+			}
+		}
+		s.stats["refused-then-signal-witness"]++
+		if ok && (atomic.LoadInt64(&stepCalls) != wantStep || atomic.LoadInt64(&sigCalls) != wantSig) {
+			s.finding(Finding{Prop: "C11", What: fmt.Sprintf("handlers ran %d (step) / %d (signal) times, expected %d / %d", stepCalls, sigCalls, wantStep, wantSig), Detail: []string{order}})
 		}
 	}
 }
